@@ -60,6 +60,12 @@ def vectors(name, maxarity, quick, rnd, sample_last=0):
     for n in range(0, maxarity + 1):
         for v in itertools.product(a, repeat=n):
             yield list(v)
+    # one more argument when the first one is a key (of each type / missing): almost every command
+    # takes its key first, so this is where the deeper argument interactions live
+    keys = list(K.values())
+    for k in keys:
+        for v in itertools.product(a, repeat=maxarity):
+            yield [k] + list(v)
     for _ in range(sample_last):
         n = maxarity + rnd.choice([1, 2, 3])
         yield [rnd.choice(a) for _ in range(n)]
